@@ -535,6 +535,14 @@ pub fn plan(p: u32, tier: &str) -> Vec<Run> {
             add(s3(true), families::slots(3));
             add(s4(true), families::slots(4));
             add(late3f(), families::late3x_oe());
+            // late failures under a comparison that tolerates textual differences: records of jobs that were
+            // skipped and then turned upstream-failed must stay as they were, to the letter (finding F12)
+            let mut lpn = noise("latepair-noise", 2, false, false);
+            lpn.faults = vec![false, true];
+            add(lpn, families::late_pair());
+            let mut l2n = noise("late2x-noise", 2, false, false);
+            l2n.faults = vec![false, true];
+            add(l2n, families::late_gadget(2, true));
             if p == 9 {
                 // with the graphs that lack one free slot: the interrupted evaluation may add a consumer
                 let mut l2 = late("late2x+removals+follow", true);
